@@ -221,8 +221,19 @@ class FsWorld(World):
         os.makedirs(os.path.dirname(p), exist_ok=True)
         with open(p, "w", encoding="utf-8") as f:
             f.write(source_text(name, ns, ver))
-        self.clock += 7  # an edit always changes the modification time, whatever the wall clock does
+        # an edit always CHANGES the modification time, whatever the wall clock does -- forwards and backwards alternately (a file
+        # restored from a backup or by `cp -p` / `rsync -t` gets an OLDER time than the revision it replaces); all times are distinct
+        self.ticks = getattr(self, "ticks", 0) + 1
+        self.clock = MTIME0 + (-7 * self.ticks if self.ticks % 2 else 7 * self.ticks)
         os.utime(p, (self.clock, self.clock))
+
+    def begin_history(self):
+        """Every history starts from the same file times (so that a replay sees the times the run saw): all files at MTIME0, and the
+        k-th edit of the history at MTIME0 - 7k (k odd: older than what it replaces) or MTIME0 + 7k (k even)."""
+        for d, _dirs, files in os.walk(self.root):
+            for f in files:
+                os.utime(os.path.join(d, f), (MTIME0, MTIME0))
+        self.ticks = 0
 
     def _remove(self, name, ns):
         os.remove(self._path(name, ns))
@@ -372,6 +383,8 @@ def run_history(world, cfg, reqs, again=None):
     nk_set, auto_reload, capacity, env_g = cfg
     cenv, cprobe, fenv, fprobe = _envs(env_g)
     world.restore()
+    if hasattr(world, "begin_history"):
+        world.begin_history()
     cenv.loader = world.caching(NSKEY if nk_set else "", auto_reload, capacity)  # one caching loader per history
     got, want, gone, kept = [], [], [], []
     for r in reqs:
@@ -657,7 +670,7 @@ def run(ck: Check) -> None:
         "Coq 8.16.1 kernel + vm_compute",
         "harness: history generators, Gallina printers, the namespace-aware loader subclasses, the per-request non-caching oracle (props/c23.py)",
         "modelled not verified: Python object identity of cached templates (heap ids), pathlib basename for simple names, "
-        "OrderedDict (through Lru.v, C24), file modification times (an edit always changes the mtime: the harness sets it)",
+        "OrderedDict (through Lru.v, C24), file modification times (an edit always changes the mtime, alternately forwards and backwards: the harness sets it)",
     ]
     ck.assumptions = [
         "the mapping (name, namespace) -> cache key is injective on the requests of a history (names {a, d/b}, namespaces {x, y}); "
@@ -684,6 +697,8 @@ def run(ck: Check) -> None:
     def one(world, uni, cfg, reqs):
         nonlocal nviol
         world.restore()
+        if hasattr(world, "begin_history"):
+            world.begin_history()
         base = dict(world.versions)
         entries = [(k, 0) for k, _ in world.entries()]
         again = []
